@@ -297,7 +297,7 @@ def gen_expr(rng: random.Random, depth: int, feats: set, names: list[str], tagn=
             return ("str", "")            # the empty literal matches everywhere, also at the very end of the input
         return ("str", rng.choice(lits))
     if k == "ci":
-        return ("ci", rng.choice(["a", "Ab", "bC", "B"]))
+        return ("ci", rng.choice(["a", "Ab", "bC", "B", "ss", "fi", "k", "ab"]))
     if k == "range":
         return ("range", *rng.choice([("a", "b"), ("a", "c"), ("b", "c"), ("A", "C")]))
     if k == "id":
@@ -829,4 +829,96 @@ def slice_grid():
         for j in bounds:
             body = [("pushlit", "a"), ("pushlit", "b"), ("pushlit", "c"), ("slice", i, j), ("id", "EOI", None)]
             out.append({"r": ("", ("seq", body))})
+    return out
+
+
+# ---------------------------------------------------------------- trivia rules that use the stack (C05)
+
+def trivia_stack_templates():
+    """an implicit-trivia attempt that changes the stack and then fails must leave no trace: after `w`, the trivia rule
+    matches "#", changes the stack and fails on its second "#"; the explicit "#" of r then matches and PEEK_ALL ~ EOI reads the
+    stack (top to bottom) out of the input"""
+    out = []
+    for tname in ("COMMENT", "WHITESPACE"):
+        for op in (("pushlit", "b"), ("push", ("str", "=")), ("drop",), ("pop",)):
+            for mod in ("", "_"):
+                pre = [("pushlit", "a")] + ([("pushlit", "=")] if op[0] in ("drop", "pop") else [])
+                tail = [("str", "#")] if op[0] != "push" else [("str", "#")]
+                body_t = [("str", "#"), op] + tail
+                rules = {"r": ("", ("seq", pre + [("id", "w", None), ("str", "#"), ("opt", ("str", "=")), ("id", "w", None), ("peekall",), ("id", "EOI", None)])),
+                         "w": ("", ("str", "x")), tname: (mod, ("seq", body_t))}
+                out.append(rules)
+    return out
+
+
+# ---------------------------------------------------------------- nested tags and backtracking (C08, C01, C02, C06)
+
+def gen_tag_template(rng: random.Random):
+    """nested node tags around alternatives / optionals / repetitions / predicates whose first attempt lets a rule finish
+    (and take a pending tag) before it fails"""
+    def leafrule():
+        return ("id", rng.choice(["x", "y", "w"]), None)
+
+    def part(depth):
+        # a rule, a tagged group, or a rule that finishes (and takes the pending tag) right before / after a tagged group
+        u = rng.random()
+        if depth <= 0 or u < 0.3:
+            return leafrule()
+        if u < 0.55:
+            return tagged(depth - 1)
+        if u < 0.85:
+            return ("seq", [leafrule(), tagged(depth - 1)])
+        return ("seq", [tagged(depth - 1), leafrule()])
+
+    def attempt(depth):
+        k = rng.choice(["choice", "opt", "rep", "and", "not", "choice"])
+        inner = part(depth)
+        bad = ("seq", [inner, ("str", "z")])
+        good = part(depth)
+        if k == "choice":
+            return ("group", ("choice", [bad, good]), None)
+        if k == "opt":
+            return ("seq", [("opt", ("group", bad, None)), good])
+        if k == "rep":
+            return ("seq", [("rep", ("group", bad, None)), good])
+        if k == "and":
+            return ("seq", [("and", inner), good])
+        return ("seq", [("not", ("group", bad, None)), good])
+
+    n = [0]
+
+    def tagged(depth):
+        n[0] += 1
+        body = attempt(depth) if rng.random() < 0.75 else ("seq", [leafrule(), attempt(depth)])
+        return ("group", body, "t%d" % n[0])
+
+    top = tagged(2)
+    if rng.random() < 0.5:
+        # the whole tagged group inside one more attempt: a checkpoint taken while the outer tag is still pending
+        top = rng.choice([("group", ("choice", [("seq", [top, ("str", "z")]), top]), None), ("group", ("choice", [top, ("str", "q")]), None),
+                          ("seq", [("opt", ("group", ("seq", [top, ("str", "z")]), None)), top])])
+    rules = {"s": ("", ("seq", [top] + ([leafrule()] if rng.random() < 0.5 else []))),
+             "x": ("", ("str", "a")), "y": ("", ("str", "a")), "w": ("", ("str", "b"))}
+    if rng.random() < 0.3:
+        rules["WHITESPACE"] = (rng.choice(["_", ""]), ("str", " "))
+    return rules
+
+
+# ---------------------------------------------------------------- POP_ALL inside an abandoned attempt (C01, C05)
+
+def popall_templates():
+    """r = { PUSH(l) ~ PUSH(l) ~ ((PREFIX ~ POP_ALL ~ SUFFIX ~ "!") | "") ~ PEEK_ALL ~ ANY* }: the first alternative pops and
+    pushes, empties the stack with POP_ALL (generated code: one clear(); interpreter: pop by pop) and fails on "!"; the stack
+    the second alternative leaves for PEEK_ALL must be the two pushed characters again"""
+    import itertools
+    ops = [("pop",), ("drop",), ("push", ("id", "l", None)), ("pushlit", "a")]
+    prefixes = [()] + [(o,) for o in ops] + list(itertools.product(ops, repeat=2))
+    suffixes = [(), (("push", ("id", "l", None)),), (("pushlit", "b"),), (("peekall",),), (("pop",),)]
+    out = []
+    for pre in prefixes:
+        for suf in suffixes:
+            first = ("seq", [*pre, ("popall",), *suf, ("str", "!")])
+            body = [("push", ("id", "l", None)), ("push", ("id", "l", None)),
+                    ("group", ("choice", [first, ("str", "")]), None), ("peekall",), ("rep", ("id", "ANY", None))]
+            out.append({"r": ("", ("seq", body)), "l": ("_", ("range", "a", "b"))})
     return out
